@@ -336,8 +336,12 @@ pub open spec fn stored_member(lm: Option<LineMapping>, t: StringTable, obfuscat
     let ghost t0_ = *string_table; let ghost cc0_ = *current_class;
 """, suffix="\n    proof { lemma_acip_ext(abs_cip(*current_class), w_header(*string_table, abs_cip(cc0_), key, file_name)); }\n}\n")
     # ---------------- final flush after the loop: the last class is stored like every other one ----------------
-    mfl = [m for m in re.finditer(r"if !current_class\.name\.is_empty\(\) \{", wf.orig)]
-    flush_found = len(mfl) >= 2
+    # the final flush = the first `if .. {` statement after the record loop (structural anchor: any condition text)
+    _lp = wf.loops()
+    _after = _lp[0][3] + 1 if _lp else 0
+    mfl = [m for m in re.finditer(r"(?m)^[ \t]*(if\s[^{;]*\{)", wf.orig) if m.start(1) >= _after][:1]
+    mfl = [re.compile(r"if\s[^{;]*\{").match(wf.orig, m.start(1)) for m in mfl]
+    flush_found = len(mfl) >= 1
     if not flush_found and not whole:
         raise AnchorLost("write: final flush `if !current_class.name.is_empty() {` (second occurrence) not found")
     if flush_found:
